@@ -378,8 +378,11 @@ class DATE_AND_TIME(ElementaryDataType):
     size = 8
 
     @classmethod
-    def encode(cls, time: int, date: int, *args, **kwargs) -> bytes:
+    def encode(cls, time: int, date: int = None, *args, **kwargs) -> bytes:
         try:
+            if date is None:
+                # a single (time, date) pair: what decode returns and what Struct / Array pass for a member / element
+                time, date = time
             return UDINT.encode(time) + UINT.encode(date)
         except Exception as err:
             raise DataError(f"Error packing {time!r} as {cls.__name__}") from err
